@@ -50,4 +50,26 @@ def requiredOKB (fsT stT : Table) (dreq : Caps) (e : String) : Bool :=
   let isOk : Except NameErr Plugin → Bool := fun r => match r with | .ok _ => true | .error _ => false
   (isOk (fromName fsT e) || isOk (fromName stT e)) && okOf (fromName fsT e) && okOf (fromName stT e)
 
+/-! ### resolving a LIST of names, and auto-enabling: set union, nothing twice -/
+
+/-- `p` is one of the plugins the table lists under the key `n` -/
+def ListedUnder (t : Table) (n : String) (p : Plugin) : Prop := ∃ ms, (n, ms) ∈ t ∧ p ∈ ms
+
+/-- SPECIFICATION of `…FromNames(names)` (for detectors, filesystem and standalone extractors alike): the result is the SET
+UNION of what the single names stand for — every plugin listed under one of the names, nothing else — and no plugin
+twice, however the names overlap (group + member, group + group, `all` + anything, the same name twice). -/
+def ResolvesTo (t : Table) (names : List String) (r : List Plugin) : Prop :=
+  (r.map (·.name)).Nodup ∧ ∀ p, p ∈ r ↔ ∃ n ∈ names, ListedUnder t n p
+
+/-- within one registry a name identifies the plugin: whatever two keys list under one plugin name is the same plugin -/
+def NameDetermines (t : Table) : Prop :=
+  ∀ kv ∈ t, ∀ kw ∈ t, ∀ p ∈ kv.2, ∀ q ∈ kw.2, p.name = q.name → p = q
+
+/-- SPECIFICATION of `EnableRequiredExtractors` on NAMES: the enabled list after it is the explicitly enabled list followed by
+the required names that were not enabled yet, each ONCE, in order of first occurrence (idempotent set union preserving
+first occurrence). `seen` = names enabled so far (in either of the two extractor lists). -/
+def firstNew : List String → List String → List String
+  | _, [] => []
+  | seen, e :: es => if seen.contains e then firstNew seen es else e :: firstNew (e :: seen) es
+
 end Scalibr.Registry
